@@ -25,7 +25,8 @@ EXPLANATION = (
     'are the strictly positive entries of its row, the relaxation value is '
     'the edge flux clipped to the upstream bottleneck, a neighbour is updated '
     'only if unvisited and strictly improved, predecessor and bottleneck are '
-    'written under the same index set, the reported flux is min_fluxes at the '
+    'written under the same index set (a keep-better store MF[I] = np.maximum(MF[I], <cand>) does not excuse a selection without the '
+    'strict-improvement test: the predecessor written under that index set is then overwritten by worse routes), the reported flux is min_fluxes at the '
     'chosen (argmax) sink and the path is rebuilt by predecessor links '
     '(appended and returned reversed, or prepended and returned as built; the '
     'loop may read the link once into a loop-carried name, or carry the head itself '
@@ -51,10 +52,11 @@ EXPLANATION = (
     'subtraction THROUGH to the working matrix on the consecutive path edges '
     '(an in-place update of a named advanced-index copy is lost) and then '
     'zeroes the argmin edge; the bottleneck scheme zeroes the argmin edge; '
-    'names map to schemes; (D4) in paths() the search call fixes loop, '
+    'names map to schemes; (D4) in paths() the search call (its two results unpacked, or read once each as component 0 / 1 of a name bound only there) fixes loop, '
     'working matrix, path and flux; the no-path test precedes the recording; '
     'path and flux are appended; the loop is left as soon as <number of '
-    'recorded paths> >= num_paths or <explained fraction> >= cutoff (counter '
+    'recorded paths> >= num_paths or <explained fraction> >= cutoff - and not already when that quantity is merely within a tolerance of its limit '
+    '(np.isclose / abs(q - limit) < eps as a further way out) - (counter '
     'from 0 by 1 or len of the result list; fraction from 0 by flux / source '
     'row sum; the exit may be a break or a loop flag `while f:` that is set '
     'once per iteration with all later statements guarded by it, or a flag conjunct of the loop test that is only '
@@ -409,6 +411,17 @@ def d2_top_path(ck, mod):
     sel = v[1]['_SEL']
     # the relaxed values: `<val>` = NF[<sel>] where NF is the clipped edge-flux array
     val = fi.expand(val_src, strict=False)
+    # `MF[I] = np.maximum(MF[I], <cand>)`: the label keeps the better of old and new value whatever the selection says
+    # (keep-better store).  The LABELS are then right also without the strict-improvement test in the selection - but
+    # everything else written under the same index set (predecessor, frontier) is then written for neighbours that did
+    # not improve: judged at the predecessor store below.
+    keep_better = False
+    if isinstance(val, ast.Call) and call_name(val) in ('np.maximum', 'np.fmax') and len(val.args) == 2 and not val.keywords:
+        old_ = [a for a in val.args if isinstance(a, ast.Subscript) and isinstance(a.value, ast.Name) and a.value.id == MF and u(canon(a.slice)) == u(idx)]
+        new_ = [a for a in val.args if a not in old_]
+        if len(old_) == 1 and len(new_) == 1:
+            keep_better = True
+            val = new_[0]
     if not (isinstance(val, ast.Subscript) and isinstance(val.value, ast.Name) and u(canon(val.slice)) == u(canon(sel))):
         ck.missing(rule + '.update', 'value stored into %s is not <relaxed fluxes>[<same selection>]: %s' % (MF, u(val)[:120]))
         return
@@ -419,8 +432,12 @@ def d2_top_path(ck, mod):
     notvis = {C('1 - %s[%s]' % (V, NBX)), C('~%s[%s]' % (V, NBX)), C('%s[%s] == 0' % (V, NBX)), C('np.logical_not(%s[%s])' % (V, NBX)), C('%s[%s] == False' % (V, NBX))}
     texts = [u(a) for a in atoms]
     rest = [t for t in texts if t != strict and t not in notvis]
+    improve_deferred = False
     if strict in texts and not rest:
         ck.ok(rule + '.improve', mod, us, u(mask), 'a neighbour is updated only if its bottleneck strictly improves (and it is not finalised)')
+    elif keep_better and not rest and C('%s[%s] <= %s' % (MF, NBX, NF)) not in texts:
+        # the selection is (at most) "not finalised"; the keep-better store makes that harmless for the label itself
+        improve_deferred = True
     else:
         v = classify(mask, ['1 - %s[%s] & (%s[%s] < %s)' % (V, NBX, MF, NBX, NF), '~%s[%s] & (%s[%s] < %s)' % (V, NBX, MF, NBX, NF), '%s[%s] < %s' % (MF, NBX, NF)], scope={V, MF, NF, nf, TN})
         if v[0] == 'match':
@@ -461,6 +478,17 @@ def d2_top_path(ck, mod):
     if len(pn) == 1 and isinstance(pn[0][1].value, ast.Name):
         PN = pn[0][1].value.id
         ck.ok(rule + '.update', mod, pn[0][0], u(pn[0][0]), 'bottleneck and predecessor are written together for the same neighbours')
+        if improve_deferred:
+            ck.bad(rule + '.improve', mod, pn[0][0], F, u(pn[0][0]),
+                   'the predecessor of a neighbour may only be overwritten when the route through the expanded node strictly IMPROVES its bottleneck. Here the '
+                   'label keeps the better value by itself (`%s`) and the index set `%s` no longer contains the test %s[<neighbours>] < <candidate>: the '
+                   'predecessor store `%s` under that same index set runs for every open neighbour, also when the route through %s is WORSE than the one '
+                   'recorded - the back-traced path then runs through a narrower edge than the reported flux' % (
+                       u(us)[:120], u(mask)[:80], MF, u(pn[0][0]), TN))
+    elif improve_deferred:
+        PN = None
+        ck.missing(rule + '.improve', 'keep-better store `%s` with a selection that does not test the improvement: the predecessor store is not written under the '
+                   'same index set and its own index set is not modelled' % u(us)[:100])
     else:
         PN = None
         other = [(s, t) for s, t in subscript_stores(loop) if t is not ut and fi.xu(s.value) == TN]
@@ -1992,6 +2020,89 @@ def _flag_exit(mod, fn, fi, loop):
     return _Guard(inner, inner.value, False, [])
 
 
+_CLOSE_FUNS = ('np.isclose', 'math.isclose', 'np.allclose', 'isclose', 'numpy.isclose', 'numpy.allclose')
+
+
+def _tolerance_stop(fi, atom, limits, stop=()):
+    """`atom` is a CONTINUE condition of a loop (conjuncts form).  If it says "go on only while <x> is NOT within a
+    tolerance of the limit parameter L" - `not np.isclose(<x>, L, ...)` / math.isclose / np.allclose (either operand
+    order), or `eps <= abs(<x> - L)` / `eps < abs(L - <x>)` with eps a non-negative numeric constant - i.e. the loop is
+    left when <x> is merely CLOSE to L, return (L, <x>, text of the stop test); else None.  L must be the caller's
+    value (a parameter that is not rebound)."""
+    site = fi.stmt(atom.lhs if isinstance(atom, Cmp) else atom[1])     # (expanded nodes are copies: definitions are looked up at the test)
+
+    def is_limit(e):
+        return isinstance(e, ast.Name) and e.id in limits and site is not None and fi.rd.defs_at(site, e.id) == {'PARAM'}
+
+    def pair(x, y):
+        if is_limit(x) and not is_limit(y):
+            return x.id, y
+        if is_limit(y) and not is_limit(x):
+            return y.id, x
+        return None
+    if isinstance(atom, Cmp):
+        less = atom.as_less()
+        if less is None:
+            return None
+        small, _strict, big = less
+        eps = _fold_const(small)
+        bx = fi.expand(big, stop=stop + tuple(limits))
+        if eps is None or eps < 0 or not (isinstance(bx, ast.Call) and call_name(bx) in ('abs', 'np.abs', 'np.fabs', 'np.absolute', 'math.fabs')
+                                           and len(bx.args) == 1 and not bx.keywords and isinstance(bx.args[0], ast.BinOp) and isinstance(bx.args[0].op, ast.Sub)):
+            return None
+        pr = pair(bx.args[0].left, bx.args[0].right)
+        return None if pr is None else (pr[0], pr[1], '%s %s %s' % (u(bx), '<=' if _strict else '<', u(small)))
+    _, e, pol = atom
+    if pol:
+        return None
+    ex = fi.expand(e, stop=stop + tuple(limits))
+    if isinstance(ex, ast.Call) and call_name(ex) in _CLOSE_FUNS and len(ex.args) >= 2 and not any(isinstance(a, ast.Starred) for a in ex.args):
+        pr = pair(ex.args[0], ex.args[1])
+        return None if pr is None else (pr[0], pr[1], u(ex))
+    return None
+
+
+def _search_results(mod, fn, fi, call, tps, loop):
+    """The names that hold the two results of the search call, by role: `P, X = top_path(...)` (tuple unpacking), or
+    `R = top_path(...)` with R bound only there, never used otherwise than as `R[0]` / `R[1]` (a tuple: nothing can
+    change it) and each component bound to ONE name by a statement of the same loop that the call dominates
+    (`P = R[0]`, `X = R[1]`, `P, X = R[0], R[1]`).  Returns (P, X, <statement binding P>, <statement binding X>) or None."""
+    if not (isinstance(tps, ast.Assign) and tps.value is call and len(tps.targets) == 1):
+        return None
+    t = tps.targets[0]
+    if isinstance(t, ast.Tuple) and len(t.elts) == 2 and all(isinstance(e, ast.Name) for e in t.elts):
+        return t.elts[0].id, t.elts[1].id, tps, tps
+    if not isinstance(t, ast.Name):
+        return None
+    R = t.id
+    if [s for s in assigns_to(fn, R) if s is not tps] or fi._mutated_in_place(R):
+        return None
+    comp = {0: [], 1: []}
+    for n in walk_local(fn):
+        if not (isinstance(n, ast.Name) and n.id == R and isinstance(n.ctx, ast.Load)):
+            continue
+        sub = mod.parent.get(n)
+        k = const_value(sub.slice) if isinstance(sub, ast.Subscript) and sub.value is n and isinstance(sub.ctx, ast.Load) else None
+        if type(k) is not int or k not in (0, 1, -1, -2) or fi.defs_of_use(n) != {tps}:
+            return None
+        comp[k % 2].append(sub)
+    out = []
+    for k in (0, 1):
+        if len(comp[k]) != 1:
+            return None
+        st = fi.stmt(comp[k][0])
+        if not isinstance(st, ast.Assign) or _loop_of(mod, st, fn) is not loop or not fi.cfg.dominates(tps, st):
+            return None
+        names = [x.id for tt in st.targets for x in ([tt] if isinstance(tt, ast.Name) else tt.elts if isinstance(tt, (ast.Tuple, ast.List)) else [])
+                 if isinstance(x, ast.Name) and fi.def_value(st, x.id) is comp[k][0]]
+        if len(names) != 1 or len(st.targets) != 1:
+            return None
+        out.append((names[0], st))
+    if out[0][0] == out[1][0]:
+        return None
+    return out[0][0], out[1][0], out[0][1], out[1][1]
+
+
 def _fold_const(e):
     """Value of an arithmetic expression over numeric literals (constant folding), else None."""
     if isinstance(e, ast.Constant):
@@ -2051,11 +2162,13 @@ def d4_paths(ck, mod, schemes=None):
     call = calls[0]
     tps = fi.stmt(call)
     loop = _loop_of(mod, call, fn)
-    if not (isinstance(tps, ast.Assign) and tps.value is call and len(tps.targets) == 1 and isinstance(tps.targets[0], ast.Tuple)
-            and len(tps.targets[0].elts) == 2 and all(isinstance(e, ast.Name) for e in tps.targets[0].elts)) or not isinstance(loop, ast.While):
+    found = _search_results(mod, fn, fi, call, tps, loop) if isinstance(loop, ast.While) else None
+    if found is None:
         ck.missing(rule + '.search', '`<path>, <flux> = top_path(...)` inside a while loop')
         return
-    PATH, FLUX = [e.id for e in tps.targets[0].elts]
+    # (PDEF / FDEF: the statements that bind the path / the flux of the current search - the call statement itself, or the
+    # statements that read component 0 / 1 of its result)
+    PATH, FLUX, PDEF, FDEF = found
     tpp = params(mod.func('top_path'))[:3]
     amap = dict(zip(tpp, call.args))
     for k in call.keywords:
@@ -2098,7 +2211,7 @@ def d4_paths(ck, mod, schemes=None):
     if len(rebinds) == 1 and len(rem) == 1:
         rm = rem[0]
         RPN = rm.value.func.id
-        va = classify(ast.Tuple(elts=[fi.expand(a, stop=(W,)) for a in rm.value.args], ctx=ast.Load()), ['(%s, %s)' % (W, PATH)], scope={W, PATH, FLUX, nf}) \
+        va = classify(ast.Tuple(elts=[fi.expand(a, stop=(W, PATH, FLUX)) for a in rm.value.args], ctx=ast.Load()), ['(%s, %s)' % (W, PATH)], scope={W, PATH, FLUX, nf}) \
             if not rm.value.keywords else ('far', 0, None)
         ck.decide(va, rule + '.replace', mod, rm, F, u(rm), 'the removal result replaces the working matrix',
                   'net_flux = remove_path(net_flux, path) expected: otherwise the same path is found again')
@@ -2178,14 +2291,14 @@ def d4_paths(ck, mod, schemes=None):
                 ck.missing(rule + '.registry', "binding of the removal callable `%s` from the scheme names 'subtract' / 'bottleneck' (recognised: %s)" % (RPN, reg))
 
     # ---- recording
-    def appends(x):
+    def appends(x, site):
         out = []
         for c in calls_in(loop):
             if isinstance(c.func, ast.Attribute) and c.func.attr == 'append' and isinstance(c.func.value, ast.Name) and len(c.args) == 1 \
-                    and fi.xu(c.args[0]) == x and fi.defs_of_use(c.args[0]) == {tps}:
+                            and fi.xu(c.args[0], stop=(x,)) == x and fi.rd.defs_at(fi.stmt(c), x) == {site}:
                 out.append(c)
         return out
-    recp, recf = appends(PATH), appends(FLUX)
+    recp, recf = appends(PATH, PDEF), appends(FLUX, FDEF)
     if len(recp) != 1 or len(recf) != 1:
         ck.missing(rule + '.order', 'recording steps `<paths>.append(%s)` and `<fluxes>.append(%s)` in the loop (found %d / %d)' % (PATH, FLUX, len(recp), len(recf)))
         return
@@ -2193,7 +2306,8 @@ def d4_paths(ck, mod, schemes=None):
     rec = [fi.stmt(recp[0]), fi.stmt(recf[0])]
     for L, st in ((PATHS, rec[0]), (FLUXES, rec[1])):
         ds = [d for d in fi.rd.defs_at(st, L)]
-        okl = len(ds) == 1 and isinstance(ds[0], ast.Assign) and not _inside(mod, ds[0], loop) and u(ds[0].value) in ('[]', 'list()') \
+        okl = len(ds) == 1 and isinstance(ds[0], ast.Assign) and not _inside(mod, ds[0], loop) and fi.def_value(ds[0], L) is not None \
+            and u(fi.def_value(ds[0], L)) in ('[]', 'list()') \
             and _object_mutations(fi, L) == [st]
         if not okl:
             ck.missing(rule + '.order', 'the result list `%s` is not an empty list that only grows by the one append in the loop' % L)
@@ -2215,7 +2329,7 @@ def d4_paths(ck, mod, schemes=None):
         ck.missing(rule + '.order', 'exit from the path loop not modelled: `%s`' % u(exits[0])[:80])
         return
     nopath_forms = ['np.isinf(%s)' % FLUX, '%s == -np.inf' % FLUX, '-np.inf == %s' % FLUX, "%s == float('-inf')" % FLUX, 'np.isneginf(%s)' % FLUX]
-    atoms = {'count': [], 'expl': [], 'nopath': [], 'nopath_inv': [], 'bound': [], 'other': []}
+    atoms = {'count': [], 'expl': [], 'nopath': [], 'nopath_inv': [], 'bound': [], 'other': [], 'tol': []}
     bound_forms = ['_A + %s / _T' % FLUX, '%s / _T + _A' % FLUX]
     for g in guards:
         pol, cont = g.pol, conjuncts(g.test, not g.pol)
@@ -2234,7 +2348,11 @@ def d4_paths(ck, mod, schemes=None):
             atoms['other'].append((g, None))
             continue
         for a in cont:
-            if isinstance(a, Cmp):
+            tol = _tolerance_stop(fi, a, (npaths, cutoff), stop=(W, PATH, FLUX))
+            if tol is not None:
+                # the loop is ALSO left when <x> is merely close to a limit: judged below, once the limit tests are known
+                atoms['tol'].append((g, a, tol))
+            elif isinstance(a, Cmp):
                 less = a.as_less()
                 sides = (fi.xu(a.lhs), fi.xu(a.rhs))
                 if npaths in sides and less is not None:
@@ -2243,14 +2361,14 @@ def d4_paths(ck, mod, schemes=None):
                     atoms['expl'].append((g, a))
                 elif a.op in (ast.NotEq, ast.Eq) and classify(ast.Compare(left=a.lhs, ops=[ast.Eq()], comparators=[a.rhs]), nopath_forms)[0] == 'match':
                     atoms['nopath' if a.op is ast.NotEq else 'nopath_inv'].append((g, a))
-                elif less is not None and _fold_const(less[2]) is not None and classify(fi.expand(less[0], stop=(W,)), bound_forms)[0] == 'match':
+                elif less is not None and _fold_const(less[2]) is not None and classify(fi.expand(less[0], stop=(W, PATH, FLUX)), bound_forms)[0] == 'match':
                     # continue only while <explained so far> + flux / <total> <= K: a bound on the explained total
                     atoms['bound'].append((g, a))
                 else:
                     atoms['other'].append((g, a))
             else:
                 _, e, p = a
-                ex = fi.expand(e)
+                ex = fi.expand(e, stop=(PATH, FLUX))
                 isinf_, isfin_ = classify(ex, nopath_forms)[0] == 'match', classify(ex, ['np.isfinite(%s)' % FLUX])[0] == 'match'
                 if (isinf_ and not p) or (isfin_ and p):
                     atoms['nopath'].append((g, a))
@@ -2258,6 +2376,18 @@ def d4_paths(ck, mod, schemes=None):
                     atoms['nopath_inv'].append((g, a))
                 else:
                     atoms['other'].append((g, a))
+    # a way out on a TOLERANCE test of a limit (`np.isclose(<q>, <limit>)`, `abs(<q> - <limit>) < eps`): if <q> is the very
+    # quantity whose ordering test against that limit is the stopping rule, the loop now also stops while <q> < <limit> -
+    # the limit is not honoured (paths that carry a small share of the flux are dropped); any other operand is not judged
+    for g, a, (param, other, what) in atoms['tol']:
+        kind = 'count' if param == npaths else 'expl'
+        qs = {fi.xu(x[1].as_less()[0]) for x in atoms[kind] if fi.xu(x[1].as_less()[2]) == param}
+        if fi.xu(other) in qs:
+            ck.bad(rule + '.limits', mod, g.node, F, u(g.test), 'the loop must go on until <quantity> >= %s: here it is also left when `%s` holds, i.e. as soon as `%s` '
+                   'comes within a tolerance of %s from below (np.isclose / math.isclose: relative 1e-5 / 1e-9 by default) - the remaining pathways, which together carry the missing share of the '
+                   'flux, are never enumerated although the limit asks for them' % (param, what, fi.xu(other), param))
+        else:
+            atoms['other'].append((g, a))
     if atoms['other']:
         g, a = atoms['other'][0]
         ck.missing(rule + '.limits', 'condition `%s` of a guard that leaves the path loop is not modelled' % u(g.test)[:100])
@@ -2268,7 +2398,7 @@ def d4_paths(ck, mod, schemes=None):
         ck.bad(rule + '.no-path', mod, g.node, F, u(g.test), 'the loop goes on only when the flux IS infinite (no path found) and stops as soon as a real path is found')
     if atoms['nopath_inv']:
         return
-    early = [(g, a) for g, a in atoms['nopath'] if cfg.dominates(tps, g.node) and all(_after_guard(mod, cfg, g, s) for s in rec)]
+    early = [(g, a) for g, a in atoms['nopath'] if cfg.dominates(FDEF, g.node) and all(_after_guard(mod, cfg, g, s) for s in rec)]
     if early:
         ck.ok(rule + '.no-path', mod, early[0][0].node, u(early[0][0].test), 'stop (without recording) when no source->sink path is left')
     elif atoms['nopath']:
@@ -2352,14 +2482,14 @@ def d4_paths(ck, mod, schemes=None):
         elif isinstance(acc, ast.Assign) and isinstance(acc.value, ast.BinOp) and isinstance(acc.value.op, ast.Add):
             l, r_ = acc.value.left, acc.value.right
             term = r_ if u(l) == q.id else l if u(r_) == q.id else None
-        if term is None and isinstance(acc, ast.AugAssign) and classify(fi.expand(acc.value, stop=(W,)), ['%s / _T' % FLUX])[0] == 'match':
+        if term is None and isinstance(acc, ast.AugAssign) and classify(fi.expand(acc.value, stop=(W, PATH, FLUX)), ['%s / _T' % FLUX])[0] == 'match':
             ck.bad(rule + '.limits', mod, acc, F, u(acc), 'the explained fraction must ACCUMULATE flux / total (+=)')
             acc = None
         elif term is None:
             ck.missing(rule + '.limits', 'accumulation `<explained> += %s / <total>` of the quantity compared with %s' % (FLUX, cutoff))
             acc = None
         else:
-            vt = classify(fi.expand(term, stop=(W,)), ['%s / _T' % FLUX], near=1)
+            vt = classify(fi.expand(term, stop=(W, PATH, FLUX)), ['%s / _T' % FLUX], near=1)
             T = vt[1].get('_T') if vt[0] == 'match' else None
             ck.decide(vt, rule + '.limits', mod, acc, F, u(acc), 'explained fraction accumulates flux / total', 'expl_flux += flux / total_flux expected')
             init = [d for d in fi.rd.defs_at(acc, q.id) if d is not acc]
@@ -2432,7 +2562,7 @@ def d4_paths(ck, mod, schemes=None):
         bound_ok, bound_unknown = False, None
         for g, a in atoms['bound']:
             small, strict, big = a.as_less()
-            vb = classify(fi.expand(small, stop=(W,)), bound_forms)
+            vb = classify(fi.expand(small, stop=(W, PATH, FLUX)), bound_forms)
             K = _fold_const(big)
             placed = cfg.dominates(tps, g.node) and all(_after_guard(mod, cfg, g, s_) for s_ in rec)
             if vb[0] == 'match' and ACC is not None and u(vb[1]['_A']) == ACC and T_acc is not None and u(vb[1]['_T']) == u(T_acc) \
